@@ -1,14 +1,631 @@
-//! C01 — not built yet.
-use crate::engine::{Ctx, Property};
+//! C01 — untrusted font data is rejected with an error, never a crash (fault enumeration).
+//!
+//! Three generators feed one driver (`driver::exercise`, every public operation that consumes
+//! font bytes, stage by stage):
+//!   * `intact`     every seed unmodified (sanity + baseline);
+//!   * `fields`     deterministic field-directed enumeration: every 16-bit aligned u16 in the
+//!                  first N bytes of every table of a set of tiny seeds set to every boundary
+//!                  value, one at a time; plus every directory offset/length boundary;
+//!   * `faults`     proptest: seed × 1–4 structured faults × random driver arguments;
+//!   * `containers` proptest: WOFF / WOFF2 / TTC seeds (fixtures and my own re-wraps of sfnt
+//!                  seeds) with faults confined to container headers and directories.
+//! Oracle: the driver returns — no panic, abort, stack overflow, refused size-field allocation
+//! or hang — and the verif-hooks bounds assertion of the binary reader never fires.
+
+use crate::engine::util::pick;
+use crate::engine::{CaseResult, Ctx, Property, Rec};
+use proptest::prelude::*;
+
+#[path = "c01_driver.rs"]
+pub mod driver;
+#[path = "c01_faults.rs"]
+pub mod faults;
+
+pub use driver::{exercise, Args, Stats};
+use faults::{analyse, apply, seeds, Fault, Kind, RClass, Seed};
 
 pub struct C01;
+
+// ------------------------------------------------------------------------------------------
+// classification shared by all sections
+
+fn classify(stats: &Stats, rec: &mut Rec) {
+    rec.class(if stats.read_ok { "load:ok" } else { "load:rejected" });
+    if stats.read_ok {
+        rec.class(&format!("container:{}", stats.kind));
+    }
+    rec.class_if(stats.provider_ok > 0, "provider:ok");
+    rec.class_if(stats.read_ok && stats.provider_ok == 0, "provider:rejected");
+    rec.class_if(stats.font_ok, "font:ok");
+    rec.class_if(stats.provider_ok > 0 && !stats.font_ok, "font:rejected");
+    rec.class_if(stats.cmap_subtables_ok > 0, "cmap-subtable:ok");
+    rec.class_if(stats.outlines_ok > 0, "outline:visited");
+    rec.class_if(stats.outlines_err > 0, "outline:error");
+    rec.class_if(stats.images_ok > 0, "image:found");
+    rec.class_if(stats.subset_ok > 0, "subset:ok");
+    rec.class_if(stats.subset_err > 0, "subset:error");
+    rec.class_if(stats.whole_ok, "whole_font:ok");
+    rec.class_if(stats.instance_ok > 0, "instance:ok");
+    rec.class_if(stats.instance_err > 0, "instance:error");
+    rec.class_if(stats.parsers_err > 0, "table-parser:error");
+    rec.class_if(stats.shaped, "shaped");
+    rec.class_if(stats.stages_panicked > 0, "stage-panicked(known)");
+    // N: FontData::read succeeded and at least one table parser beyond the directory ran
+    rec.set_nontrivial(stats.read_ok && stats.tables_ok >= 1 && stats.parsers_ok + stats.parsers_err >= 1);
+}
+
+fn run_bytes(bytes: &[u8], args: &Args, rec: &mut Rec) -> CaseResult {
+    rec.artefact("font", bytes);
+    rec.hash_bytes(bytes);
+    rec.hash_u64(args.hash());
+    let (stats, res) = exercise(bytes, args, rec);
+    classify(&stats, rec);
+    res
+}
+
+/// Entry point of the `c01_bytes` libFuzzer target and of `vcheck replay-bytes c01_bytes`.
+pub fn check_bytes(data: &[u8], rec: &mut Rec) -> CaseResult {
+    if data.len() > 1 << 20 {
+        return Ok(());
+    }
+    let (_, res) = exercise(data, &Args::fixed(), rec);
+    res
+}
+
+fn seed_group(s: &Seed) -> &'static str {
+    if s.name.starts_with("gen:") {
+        "seed:generated"
+    } else if s.name.starts_with("aots/") {
+        "seed:aots"
+    } else {
+        match s.kind {
+            Kind::Woff => "seed:woff",
+            Kind::Woff2 => "seed:woff2",
+            Kind::Ttc => "seed:ttc",
+            _ => "seed:fixture-sfnt",
+        }
+    }
+}
+
+// ------------------------------------------------------------------------------------------
+// field-directed enumeration
+
+#[derive(Clone, Debug)]
+struct FieldItem {
+    seed: usize,
+    /// absolute byte position and width of the field
+    at: usize,
+    width: u8,
+    value: u32,
+    what: String,
+}
+
+const TINY_QUICK: &[&str] = &[
+    "fonts/opentype/test-font.ttf",
+    "fonts/opentype/SFNT-TTF-Composite.ttf",
+    "aots/base.otf",
+    "fonts/opentype/cff2/SourceSansVariable-Roman.abc.otf",
+    "fonts/variable/Inter[slnt,wght].abc.ttf",
+    "fonts/variable/UnderlineTest-VF.ttf",
+    "fonts/sbix/sbix-dupe.ttf",
+    "fonts/svg/gzipped.ttf",
+    "fonts/opentype/SymbolTest-Regular.ttf",
+    "gen:basic-astral-longloca",
+    "gen:basic-vertical-kern",
+    "gen:stored:fonts/woff2/test-font.woff2",
+    "gen:stored:fonts/woff2/roundtrip-hmtx-lsb-001.woff2",
+];
+
+const TINY_THOROUGH: &[&str] = &[
+    "fonts/opentype/cff2/SourceSans3.abc.otf",
+    "fonts/opentype/NotoSans-VF.abc.ttf",
+    "gen:basic",
+    "gen:basic-fvar-avar",
+    "gen:stored:fonts/woff2/SFNT-TTF-Composite.woff2",
+    "gen:stored:fonts/woff2/roundtrip-offset-tables-001.woff2",
+    "gen:stored:fonts/woff2/test_glyf_loca_null_transforms.woff2",
+];
+
+/// seeds of which only the cmap table is enumerated (one per cmap format)
+const CMAP_SEEDS: &[&str] = &[
+    "aots/cmap0_font1.otf",
+    "aots/cmap2_font1.otf",
+    "aots/cmap4_font1.otf",
+    "aots/cmap4_font4.otf",
+    "aots/cmap6_font1.otf",
+    "aots/cmap8_font1.otf",
+    "aots/cmap10_font1.otf",
+    "aots/cmap12_font1.otf",
+    "aots/cmap14_font1.otf",
+];
+
+const STRUCTURAL: &[&str] = &[
+    "cmap", "CFF ", "CFF2", "fvar", "gvar", "HVAR", "MVAR", "STAT", "avar", "loca", "post", "sbix", "SVG ", "kern",
+    "glyf", "name", "cvar",
+];
+
+fn field_plan(thorough: bool) -> Vec<FieldItem> {
+    let all = seeds();
+    let find = |n: &str| all.iter().position(|s| s.name == n);
+    let mut plan = Vec::new();
+    let mut full: Vec<usize> = TINY_QUICK.iter().filter_map(|n| find(n)).collect();
+    if thorough {
+        full.extend(TINY_THOROUGH.iter().filter_map(|n| find(n)));
+    }
+    let cmap_only: Vec<usize> = CMAP_SEEDS.iter().filter_map(|n| find(n)).collect();
+    for (si, only_cmap) in full.iter().map(|s| (*s, false)).chain(cmap_only.iter().map(|s| (*s, true))) {
+        let s = &all[si];
+        let l = analyse(&s.bytes);
+        if l.kind != Kind::Sfnt && l.kind != Kind::Woff2 {
+            continue;
+        }
+        let flen = s.bytes.len() as u32;
+        for r in l.regions.iter().filter(|r| r.class == RClass::Table) {
+            if only_cmap && r.name != "cmap" {
+                continue;
+            }
+            let structural = STRUCTURAL.contains(&r.name.as_str());
+            let n = match (thorough, structural || only_cmap) {
+                (true, _) => 1024,
+                (false, true) => 384,
+                (false, false) => 96,
+            };
+            let len = r.len as u32;
+            let mut pos = 0usize;
+            while pos + 2 <= r.len && pos < n {
+                let at = r.off + pos;
+                let orig = u16::from_be_bytes([s.bytes[at], s.bytes[at + 1]]) as u32;
+                let mut vals: Vec<u32> = vec![0, 1, 0x7FFF, 0x8000, 0xFFFE, 0xFFFF, len & 0xFFFF, (len + 1) & 0xFFFF, len.wrapping_sub(1) & 0xFFFF];
+                // distance to the end of the table from this field: the value that makes an
+                // offset/length read from here end exactly at / one past the end
+                let rest = len - pos as u32;
+                vals.push(rest & 0xFFFF);
+                vals.push((rest + 1) & 0xFFFF);
+                vals.push(orig.wrapping_add(1) & 0xFFFF);
+                let mut seen = Vec::new();
+                for v in vals {
+                    if v == orig || seen.contains(&v) {
+                        continue;
+                    }
+                    seen.push(v);
+                    plan.push(FieldItem {
+                        seed: si,
+                        at,
+                        width: 2,
+                        value: v,
+                        what: format!("{} {}+{} u16 {:#x}->{:#x}", s.name, r.name, pos, orig, v),
+                    });
+                }
+                pos += 2;
+            }
+        }
+        // byte-granular sweep of the tables whose fields are not 16-bit aligned (CFF INDEX
+        // offSize/offsets, DICT operands, charstrings, packed gvar data, glyph flags)
+        for r in l.regions.iter().filter(|r| r.class == RClass::Table) {
+            let bytewise = ["CFF ", "CFF2", "gvar", "glyf", "cmap", "post", "SVG ", "sbix", "cvar", "HVAR", "MVAR"];
+            let in_woff2 = l.kind == Kind::Woff2 && ["glyf", "loca", "hmtx", "head", "maxp", "hhea"].contains(&r.name.as_str());
+            if !(bytewise.contains(&r.name.as_str()) || in_woff2) || (only_cmap && r.name != "cmap") {
+                continue;
+            }
+            let n = if thorough { 4096 } else { 768 };
+            for pos in 0..r.len.min(n) {
+                let at = r.off + pos;
+                let orig = s.bytes[at] as u32;
+                let mut seen = Vec::new();
+                for v in [0u32, 1, 0x7F, 0x80, 0xFE, 0xFF, (orig + 1) & 0xFF, orig.wrapping_sub(1) & 0xFF, orig ^ 0x80, orig ^ 0x01] {
+                    // values the 16-bit sweep already produces at this byte are not repeated
+                    let dup16 = pos % 2 == 1 && (v == 0 || v == 0xFF || v == 1 || v == 0xFE);
+                    if v == orig || seen.contains(&v) || dup16 {
+                        continue;
+                    }
+                    seen.push(v);
+                    plan.push(FieldItem {
+                        seed: si,
+                        at,
+                        width: 1,
+                        value: v,
+                        what: format!("{} {}+{} u8 {:#x}->{:#x}", s.name, r.name, pos, orig, v),
+                    });
+                }
+            }
+        }
+        // anchors (sub-table, glyph, INDEX, strike ... headers found by my own readers): every
+        // byte and every 16-bit field aligned to the structure start
+        for r in l.regions.iter().filter(|r| r.class == RClass::Anchor) {
+            if only_cmap && !r.name.starts_with("cmap@") {
+                continue;
+            }
+            let tab = l.regions.iter().find(|t| t.class == RClass::Table && t.off <= r.off && r.off < t.off + t.len);
+            let (tlen, rest) = match tab {
+                Some(t) => (t.len as u32, (t.off + t.len - r.off) as u32),
+                None => (r.len as u32, r.len as u32),
+            };
+            for pos in 0..r.len {
+                let at = r.off + pos;
+                let orig = s.bytes[at] as u32;
+                let mut seen = Vec::new();
+                for v in [0u32, 1, 0x7F, 0x80, 0xFE, 0xFF, (orig + 1) & 0xFF, orig.wrapping_sub(1) & 0xFF, orig ^ 0x80] {
+                    if v == orig || seen.contains(&v) {
+                        continue;
+                    }
+                    seen.push(v);
+                    plan.push(FieldItem { seed: si, at, width: 1, value: v, what: format!("{} {}+{} u8 {:#x}->{:#x}", s.name, r.name, pos, orig, v) });
+                }
+                if pos % 2 == 0 && pos + 2 <= r.len {
+                    let orig = u16::from_be_bytes([s.bytes[at], s.bytes[at + 1]]) as u32;
+                    let mut seen = Vec::new();
+                    for v in [0x7FFFu32, 0x8000, 0xFFFE, 0xFFFF, tlen & 0xFFFF, (tlen + 1) & 0xFFFF, tlen.wrapping_sub(1) & 0xFFFF, rest.wrapping_sub(pos as u32) & 0xFFFF, (rest + 1).wrapping_sub(pos as u32) & 0xFFFF, orig.wrapping_add(1) & 0xFFFF, orig.wrapping_mul(2) & 0xFFFF] {
+                        if v == orig || seen.contains(&v) {
+                            continue;
+                        }
+                        seen.push(v);
+                        plan.push(FieldItem { seed: si, at, width: 2, value: v, what: format!("{} {}+{} u16 {:#x}->{:#x}", s.name, r.name, pos, orig, v) });
+                    }
+                }
+            }
+        }
+        if l.kind == Kind::Woff2 {
+            // WOFF2 header and directory, byte by byte
+            for r in l.regions.iter().filter(|r| matches!(r.class, RClass::Header | RClass::Directory)) {
+                for pos in 0..r.len {
+                    let at = r.off + pos;
+                    let orig = s.bytes[at] as u32;
+                    let mut seen = Vec::new();
+                    for v in [0u32, 1, 0x3F, 0x7F, 0x80, 0xFE, 0xFF, (orig + 1) & 0xFF, orig.wrapping_sub(1) & 0xFF, orig ^ 0x40, orig ^ 0x80, orig ^ 0xC0] {
+                        if v == orig || seen.contains(&v) {
+                            continue;
+                        }
+                        seen.push(v);
+                        plan.push(FieldItem { seed: si, at, width: 1, value: v, what: format!("{} {}+{} u8 {:#x}->{:#x}", s.name, r.name, pos, orig, v) });
+                    }
+                }
+            }
+            continue;
+        }
+        if only_cmap {
+            continue;
+        }
+        // directory: offset and length of every record
+        for rc in &l.records {
+            for (rel, fname) in [(8usize, "offset"), (12, "length")] {
+                let at = rc.at + rel;
+                if at + 4 > s.bytes.len() {
+                    continue;
+                }
+                let orig = u32::from_be_bytes([s.bytes[at], s.bytes[at + 1], s.bytes[at + 2], s.bytes[at + 3]]);
+                let other = u32::from_be_bytes([s.bytes[rc.at + 20 - rel], s.bytes[rc.at + 21 - rel], s.bytes[rc.at + 22 - rel], s.bytes[rc.at + 23 - rel]]);
+                let vals = [
+                    0u32,
+                    1,
+                    flen,
+                    flen - 1,
+                    flen + 1,
+                    flen.wrapping_sub(other),
+                    flen.wrapping_sub(other).wrapping_add(1),
+                    0xFFFF_FFFF,
+                    0xFFFF_FFFF - other,
+                    0xFFFF_FFFF - other + 1,
+                    0x8000_0000,
+                    0x7FFF_FFFF,
+                    orig.wrapping_add(1),
+                    orig.wrapping_sub(1),
+                    orig.wrapping_add(2),
+                    12,
+                ];
+                let mut seen = Vec::new();
+                for v in vals {
+                    if v == orig || seen.contains(&v) {
+                        continue;
+                    }
+                    seen.push(v);
+                    plan.push(FieldItem {
+                        seed: si,
+                        at,
+                        width: 4,
+                        value: v,
+                        what: format!("{} dir[{}].{} {:#x}->{:#x}", s.name, String::from_utf8_lossy(&rc.tag), fname, orig, v),
+                    });
+                }
+            }
+        }
+        // sfnt header: numTables
+        for v in [0u32, 1, 0xFFFF, 0x8000, l.records.len() as u32 + 1, (l.records.len() as u32).saturating_sub(1)] {
+            plan.push(FieldItem { seed: si, at: 4, width: 2, value: v, what: format!("{} numTables->{}", s.name, v) });
+        }
+    }
+    plan
+}
+
+fn field_case(item: &FieldItem, args: &Args, rec: &mut Rec) -> CaseResult {
+    let s = &seeds()[item.seed];
+    let mut bytes = s.bytes.clone();
+    let be = item.value.to_be_bytes();
+    let w = item.width as usize;
+    if item.at + w <= bytes.len() {
+        bytes[item.at..item.at + w].copy_from_slice(&be[4 - w..]);
+    }
+    rec.sample(|| item.what.clone());
+    rec.class(&format!("fields:{}", s.name.rsplit('/').next().unwrap_or("?")));
+    run_bytes(&bytes, args, rec)
+}
+
+// ------------------------------------------------------------------------------------------
+// random structured faults
+
+#[derive(Clone, Debug)]
+struct FaultCase {
+    group_r: u32,
+    seed_r: u32,
+    faults: Vec<Fault>,
+    args: ArgSpec,
+}
+
+#[derive(Clone, Debug)]
+struct ArgSpec {
+    index: u32,
+    chars: Vec<u32>,
+    text: Vec<u32>,
+    script: u8,
+    gids: Vec<u16>,
+    lists: Vec<Vec<u16>>,
+    ppem: u16,
+    coords: Vec<i32>,
+    name_ids: Vec<u16>,
+    shape: bool,
+    heavy: bool,
+}
+
+const CHAR_POOL: &[u32] = &[
+    0x00, 0x09, 0x1F, 0x20, 0x41, 0x42, 0x61, 0x66, 0x69, 0x7E, 0xA0, 0xE9, 0x301, 0x627, 0x644, 0x915, 0x94D, 0xE33, 0x200D, 0x25CC,
+    0x4E00, 0xF020, 0xF041, 0xFE0E, 0xFE0F, 0xFFFF, 0x10000, 0x1F600, 0xE0100, 0x10FFFF,
+];
+
+impl ArgSpec {
+    fn resolve(&self) -> Args {
+        let ch = |r: &u32| char::from_u32(CHAR_POOL[pick(CHAR_POOL.len(), *r)]).unwrap_or('A');
+        Args {
+            index: match self.index % 8 {
+                0 => 0,
+                1 => 1,
+                2 => 2,
+                3 => 3,
+                4 => 0xFFFF,
+                5 => usize::MAX,
+                6 => 4,
+                _ => (self.index >> 8) as usize,
+            },
+            chars: self.chars.iter().map(ch).collect(),
+            text: self.text.iter().map(ch).collect(),
+            script: [allsorts::tag::LATN, allsorts::tag::ARAB, allsorts::tag::DEVA, allsorts::tag::THAI, 0][self.script as usize % 5],
+            gids: self.gids.clone(),
+            glyph_lists: self.lists.clone(),
+            ppem: self.ppem,
+            coords: self.coords.clone(),
+            name_ids: self.name_ids.clone(),
+            shape: self.shape,
+            heavy: self.heavy,
+        }
+    }
+}
+
+fn gid_strategy() -> impl Strategy<Value = u16> {
+    prop_oneof![
+        6 => 0u16..64,
+        2 => 64u16..1024,
+        1 => prop::sample::select(vec![0x7FFFu16, 0x8000, 0xFFFE, 0xFFFF, 255, 256, 257]),
+        1 => any::<u16>(),
+    ]
+}
+
+fn arg_strategy() -> impl Strategy<Value = ArgSpec> {
+    (
+        (any::<u32>(), prop::collection::vec(any::<u32>(), 0..6), prop::collection::vec(any::<u32>(), 0..8), any::<u8>()),
+        (
+            prop::collection::vec(gid_strategy(), 0..5),
+            prop::collection::vec(prop::collection::vec(gid_strategy(), 0..8), 0..3),
+            prop_oneof![Just(0u16), Just(16), Just(32), Just(255), Just(256), any::<u16>()],
+        ),
+        (
+            prop::collection::vec(
+                prop_oneof![
+                    3 => (0i32..1000).prop_map(|v| v << 16),
+                    1 => any::<i32>(),
+                    1 => prop::sample::select(vec![i32::MIN, i32::MAX, 0, -1, 1, 1 << 16, -(1 << 16)]),
+                ],
+                0..4,
+            ),
+            prop::collection::vec(prop_oneof![0u16..26, 255u16..300, any::<u16>()], 0..4),
+            prop::bool::weighted(0.15),
+            prop::bool::weighted(0.35),
+        ),
+    )
+        .prop_map(|((index, chars, text, script), (gids, lists, ppem), (coords, name_ids, shape, heavy))| ArgSpec {
+            index,
+            chars,
+            text,
+            script,
+            gids,
+            lists,
+            ppem,
+            coords,
+            name_ids,
+            shape,
+            heavy,
+        })
+}
+
+fn fault_strategy(container_only: bool) -> BoxedStrategy<Fault> {
+    let overwrite = (any::<u32>(), 0u8..10, 0u8..10, any::<u32>(), prop_oneof![Just(1u8), Just(2), Just(2), Just(2), Just(4)], 0u8..16, any::<u32>());
+    if container_only {
+        prop_oneof![
+            40 => overwrite.prop_map(|(region, _, pos_kind, pos, width, val_kind, val)| Fault::Overwrite {
+                region, class_bias: if region & 1 == 0 { 6 } else { 8 }, pos_kind: if pos_kind < 6 { 9 } else { pos_kind }, pos, width, val_kind, val
+            }),
+            20 => (any::<u32>(), any::<u8>(), 0u8..12, any::<u32>()).prop_map(|(rec, field, val_kind, val)| Fault::DirField { rec, field, val_kind, val }),
+            8 => (0u8..6, any::<u32>()).prop_map(|(val_kind, val)| Fault::NumTables { val_kind, val }),
+            10 => (any::<u32>(), prop::sample::select(vec![0x40u8, 0x80, 0xC0, 0x01, 0x3F, 0x0A, 0x0B])).prop_map(|(rec, xor)| Fault::Woff2Flags { rec, xor }),
+            6 => (0u8..4, any::<u32>()).prop_map(|(kind, r)| Fault::Truncate { kind, r }),
+            5 => any::<u32>().prop_map(|rec| Fault::DeleteTable { rec }),
+            4 => (any::<u32>(), any::<u32>()).prop_map(|(a, b)| Fault::SwapRecords { a, b }),
+            3 => (any::<u32>(), any::<u32>()).prop_map(|(rec, other)| Fault::DuplicateTag { rec, other }),
+            4 => (any::<u32>(), any::<u32>(), any::<bool>(), any::<u8>()).prop_map(|(region, pos, remove, n)| Fault::Splice { region, pos, remove, n }),
+        ]
+        .boxed()
+    } else {
+        prop_oneof![
+            52 => overwrite.prop_map(|(region, class_bias, pos_kind, pos, width, val_kind, val)| Fault::Overwrite { region, class_bias, pos_kind, pos, width, val_kind, val }),
+            8 => (0u8..4, any::<u32>()).prop_map(|(kind, r)| Fault::Truncate { kind, r }),
+            6 => any::<u32>().prop_map(|rec| Fault::DeleteTable { rec }),
+            4 => (any::<u32>(), any::<u32>()).prop_map(|(a, b)| Fault::SwapRecords { a, b }),
+            10 => (any::<u32>(), any::<u8>(), 0u8..12, any::<u32>()).prop_map(|(rec, field, val_kind, val)| Fault::DirField { rec, field, val_kind, val }),
+            3 => (any::<u32>(), any::<u32>()).prop_map(|(rec, other)| Fault::DuplicateTag { rec, other }),
+            3 => (0u8..6, any::<u32>()).prop_map(|(val_kind, val)| Fault::NumTables { val_kind, val }),
+            2 => (any::<u32>(), prop::sample::select(vec![0x40u8, 0x80, 0xC0, 0x01])).prop_map(|(rec, xor)| Fault::Woff2Flags { rec, xor }),
+            4 => (any::<u32>(), any::<u32>(), any::<bool>(), any::<u8>()).prop_map(|(region, pos, remove, n)| Fault::Splice { region, pos, remove, n }),
+        ]
+        .boxed()
+    }
+}
+
+fn fault_case_strategy() -> impl Strategy<Value = FaultCase> {
+    // 1–4 faults, weighted towards few (so that most fonts still load)
+    let n = prop_oneof![5 => Just(1usize), 3 => Just(2usize), 1 => Just(3usize), 1 => Just(4usize)];
+    (any::<u32>(), any::<u32>(), n.prop_flat_map(|n| prop::collection::vec(fault_strategy(false), n..=n)), arg_strategy())
+        .prop_map(|(group_r, seed_r, faults, args)| FaultCase { group_r, seed_r, faults, args })
+}
+
+fn fault_case(c: &FaultCase, rec: &mut Rec) -> CaseResult {
+    let si = faults::choose_seed(c.group_r, c.seed_r);
+    let s = &seeds()[si];
+    let mut bytes = s.bytes.clone();
+    let mut descs = Vec::new();
+    for f in &c.faults {
+        descs.push(apply(&mut bytes, f));
+        rec.class(&format!("fault:{}", f.kind_name()));
+    }
+    rec.class(seed_group(s));
+    rec.class(&format!("nfaults:{}", c.faults.len()));
+    rec.sample(|| format!("{} [{} B] {}", s.name, bytes.len(), descs.join("; ")));
+    run_bytes(&bytes, &c.args.resolve(), rec)
+}
+
+#[derive(Clone, Debug)]
+struct ContainerCase {
+    seed_r: u32,
+    /// Some: wrap an sfnt seed first
+    wrap: Option<(u8, u32)>,
+    pre: Option<Fault>,
+    faults: Vec<Fault>,
+    args: ArgSpec,
+}
+
+fn container_case_strategy() -> impl Strategy<Value = ContainerCase> {
+    (
+        any::<u32>(),
+        prop::option::weighted(0.6, (0u8..6, any::<u32>())),
+        prop::option::weighted(0.2, fault_strategy(false)),
+        prop::collection::vec(fault_strategy(true), 0..=3),
+        arg_strategy(),
+    )
+        .prop_map(|(seed_r, wrap, pre, faults, args)| ContainerCase { seed_r, wrap, pre, faults, args })
+}
+
+fn container_case(c: &ContainerCase, rec: &mut Rec) -> CaseResult {
+    let g = faults::groups();
+    let all = seeds();
+    let mut descs = Vec::new();
+    let (s, mut bytes) = match c.wrap {
+        Some((kind, r)) => {
+            // a small bare sfnt seed, optionally damaged, then wrapped by my encoders
+            let pool: Vec<usize> = g.small.iter().chain(g.generated.iter()).chain(g.aots.iter().take(12)).copied().filter(|i| all[*i].kind == Kind::Sfnt).collect();
+            if pool.is_empty() {
+                return Ok(());
+            }
+            let s = &all[pool[pick(pool.len(), c.seed_r)]];
+            let mut b = s.bytes.clone();
+            if let Some(p) = &c.pre {
+                descs.push(apply(&mut b, p));
+            }
+            let w = Fault::Wrap { kind, r };
+            descs.push(apply(&mut b, &w));
+            rec.class(&format!("wrap:{}", kind % 6));
+            (s, b)
+        }
+        None => {
+            let pool: Vec<usize> = g.webfonts.iter().chain(g.generated.iter()).copied().filter(|i| all[*i].kind != Kind::Sfnt).collect();
+            if pool.is_empty() {
+                return Ok(());
+            }
+            let s = &all[pool[pick(pool.len(), c.seed_r)]];
+            (s, s.bytes.clone())
+        }
+    };
+    for f in &c.faults {
+        descs.push(apply(&mut bytes, f));
+        rec.class(&format!("cfault:{}", f.kind_name()));
+    }
+    rec.class(&format!("ckind:{}", analyse(&bytes).kind.as_str()));
+    rec.sample(|| format!("{} [{} B] {}", s.name, bytes.len(), descs.join("; ")));
+    run_bytes(&bytes, &c.args.resolve(), rec)
+}
 
 impl Property for C01 {
     fn id(&self) -> &'static str {
         "C01"
     }
-    fn rule(&self) -> String {
-        "not implemented".to_string()
+    fn level(&self) -> &'static str {
+        "fault_enumeration"
     }
-    fn run(&self, _ctx: &mut Ctx) {}
+    fn rule(&self) -> String {
+        "driver = every public byte-consuming operation (load, table access, Font accessors, cmap, names, metrics, \
+         glyf/CFF/CFF2 outlines, images, subset/whole_font/prince::subset, instance/axis_names/normalize) run stage by \
+         stage on: (intact) every fixture <= 64 KiB and generated seeds; (fields) exhaustive single-field enumeration \
+         of every aligned u16 in the first N bytes of every table of tiny seeds x boundary values, plus every \
+         directory offset/length; (faults) seed x 1-4 structured faults x random arguments; (containers) WOFF/WOFF2/TTC \
+         fixtures and my own re-wraps with header/directory faults. A case is non-trivial when FontData::read \
+         succeeded, table_data returned data for >= 1 tag and >= 1 table parser ran; distinct by hash of the mutated \
+         bytes and the arguments."
+            .to_string()
+    }
+    fn assumptions(&self) -> Vec<String> {
+        vec![
+            "panics are observed in a build with debug assertions and overflow checks (what `cargo build` gives a user)".into(),
+            "allocation guard: a fresh allocation > max(64 MiB, 1024 x input) is a size-field allocation; amortised growth (decompression) is not flagged".into(),
+            "shaping is only touched lightly (C02 owns it); GSUB/GPOS/GDEF/kern/morx are loaded, not applied".into(),
+            "a case in which a stage hits a known finding continues with the remaining stages (fresh Font), so later stages are still searched".into(),
+        ]
+    }
+    fn run(&self, ctx: &mut Ctx) {
+        let all = seeds();
+        if all.len() < 20 {
+            ctx.note(format!("only {} seeds found under $VERIF_REPO/tests", all.len()));
+        }
+        let fixed = Args::fixed();
+        // 1. intact seeds
+        ctx.enumerate("intact", all.len() as u64, true, |i, rec| {
+            let s = &all[i as usize];
+            rec.class(seed_group(s));
+            rec.sample(|| format!("{} intact", s.name));
+            run_bytes(&s.bytes, &fixed, rec)
+        });
+        // 2. field-directed enumeration (seed independent; exhaustive over its finite space)
+        let plan = field_plan(ctx.thorough());
+        let total = ctx.cases(plan.len() as u64, plan.len() as u64).min(plan.len() as u64);
+        let stride_ok = total == plan.len() as u64;
+        let mut light = Args::fixed();
+        light.heavy = false;
+        ctx.enumerate("fields", total, stride_ok, |i, rec| {
+            // with VERIF_SCALE < 1 the plan is sampled at a fixed stride
+            let idx = if stride_ok { i as usize } else { (i as u128 * plan.len() as u128 / total.max(1) as u128) as usize };
+            let item = &plan[idx.min(plan.len() - 1)];
+            // heavy arguments on every 4th item keep the sweep fast
+            field_case(item, if idx % 4 == 0 { &fixed } else { &light }, rec)
+        });
+        // 3. random structured faults
+        let n = ctx.cases(200_000, 3_000_000);
+        ctx.section("faults", n, fault_case_strategy(), fault_case);
+        // 4. container headers and directories
+        let n = ctx.cases(60_000, 1_000_000);
+        ctx.section("containers", n, container_case_strategy(), container_case);
+    }
 }
